@@ -285,7 +285,13 @@ type tokenizer struct {
 	lineIndex   int // in the input slice
 
 	skipComments bool
+
+	depth int // number of blocks and functions being parsed
 }
+
+// maximum number of nested blocks and functions : the parser is recursive,
+// an unbounded nesting would exhaust the stack
+const maxNestingDepth = 500
 
 func (tk *tokenizer) consumeIdent() string {
 	// http://drafts.csswg.org/csswg/css-syntax/#consume-a-name
@@ -681,6 +687,20 @@ func (tk *tokenizer) updateLine() Pos {
 	return Pos{tk.line, column}
 }
 
+// consumeNested parses the content of a block or of a function, up to [endChar].
+// Nested too deeply, it gives up : the rest of the input is ignored, as if all
+// the blocks were left unclosed.
+func (tk *tokenizer) consumeNested(endChar byte) []Token {
+	if tk.depth >= maxNestingDepth {
+		tk.pos = len(tk.src)
+		return nil
+	}
+	tk.depth++
+	out := tk.consumeValueList(endChar)
+	tk.depth--
+	return out
+}
+
 // stops and returns when encountering [endChar]
 func (tk *tokenizer) consumeValueList(endChar byte) []Token {
 	var (
@@ -734,7 +754,7 @@ func (tk *tokenizer) consumeValueList(endChar byte) []Token {
 
 			funcBlock := FunctionBlock{value, listVal{pos: tokenPos}}
 			// recurse
-			funcBlock.Arguments = tk.consumeValueList(')')
+			funcBlock.Arguments = tk.consumeNested(')')
 			out = append(out, funcBlock)
 			continue
 		}
@@ -763,17 +783,17 @@ func (tk *tokenizer) consumeValueList(endChar byte) []Token {
 		case '{':
 			tk.pos += 1
 			brack := CurlyBracketsBlock{pos: tokenPos}
-			brack.Arguments = tk.consumeValueList('}')
+			brack.Arguments = tk.consumeNested('}')
 			out = append(out, brack)
 		case '[':
 			tk.pos += 1
 			brack := SquareBracketsBlock{pos: tokenPos}
-			brack.Arguments = tk.consumeValueList(']')
+			brack.Arguments = tk.consumeNested(']')
 			out = append(out, brack)
 		case '(':
 			tk.pos += 1
 			brack := ParenthesesBlock{pos: tokenPos}
-			brack.Arguments = tk.consumeValueList(')')
+			brack.Arguments = tk.consumeNested(')')
 			out = append(out, brack)
 		case 0: // remove this case to avoid false comparaison with endChar
 		case endChar: // Matching }, ] or ), or 0
